@@ -123,7 +123,7 @@ PROPS = {
     },
     "C19": {
         "title": "The unchecked type cast of the 1-D fast path only ever relabels identical types",
-        "scenarios": ["casts"],
+        "scenarios": ["casts", {"name": "casts_mixed", "crash_is_violation": "C19|fast-path|process-died-behind-an-unchecked-cast"}],
         "require_cov": [r"^CAST\|Q1\|Ix1\|n2", r"^CAST\|Q2\|Ix1\|n3", r"^NOCAST\|Q1\|IxDyn", r"^EL\|Linear\|i32", r"^EL\|Bilinear\|i64", r"^EL\|Linear\|f32"],
         "cov_report": [r"CAST", r"^B[12]\|"],
         "technique": "TLA+ trace validation of hook events: every executed cast_unchecked logs type names, sizes, alignments; memo ties the Ix1 fast path to the IxDyn general path bit-for-bit",
